@@ -75,7 +75,7 @@ let num s = n_of_int (int_of_string s)
 
 (* ------------------------------------------------------------------ mutex *)
 let mutex_op = function
-  | "l" | "lh" -> OLock | "tl" -> OTry | "al" -> OAsync | "ap" -> OPoll | "ad" -> ODropFut
+  | "l" | "lh" -> OLock | "tl" -> OTry | "al" -> OAsync | "ap" -> OPoll | "ad" -> ODropFut | "yw" -> OWait
   | o -> failwith ("bad mutex op " ^ o)
 
 let res_s = function
